@@ -531,6 +531,8 @@ struct Recipe {
     force_split: bool,
     /// finally start a resize through reserve (main table empty, everything in the old one)
     reserve_split: bool,
+    /// number of content-preserving operations applied after building
+    neutral: usize,
 }
 
 fn build_map(contents: &BTreeMap<u64, u64>, r: &Recipe) -> (HashMap<u64, u64, Bh>, bool) {
@@ -564,6 +566,60 @@ fn build_map(contents: &BTreeMap<u64, u64>, r: &Recipe) -> (HashMap<u64, u64, Bh
     }
     for nk in noise_keys {
         m.remove(&nk);
+    }
+    // content-preserving operations: the history changes, the contents do not
+    let mut nrng = Rng::new(r.shuffle ^ 0x5eed);
+    for _ in 0..r.neutral {
+        match nrng.below(9) {
+            0 => {
+                // replace_entry_with that keeps the value, on keys in the old table first
+                let keys: Vec<u64> = m.keys().copied().collect();
+                let mut olds: Vec<u64> = keys.iter().copied().filter(|k| matches!(m.verif_locate(k), Location::Old(_))).collect();
+                if olds.is_empty() {
+                    olds = keys;
+                }
+                for k in olds.into_iter().take(1 + nrng.usize(4)) {
+                    if nrng.chance(1, 2) {
+                        let _ = m.entry(k).and_replace_entry_with(|_, v| Some(v));
+                    } else {
+                        let _ = m.raw_entry_mut().from_key(&k).and_replace_entry_with(|_, v| Some(v));
+                    }
+                }
+            }
+            1 => m.retain(|_, _| true),
+            2 => {
+                let n = m.drain_filter(|_, _| false).count();
+                assert_eq!(n, 0);
+            }
+            3 => {
+                // clone_from into a destination with prior contents, possibly mid-resize
+                let mut d: HashMap<u64, u64, Bh> = HashMap::with_hasher(Bh::new(HMode::Good, 40 + nrng.below(8)));
+                let pn = *nrng.pick(&[0u64, 3, 15, 16, 29, 40]);
+                for i in 0..pn {
+                    d.insert((1u64 << 48) + i, i);
+                }
+                d.clone_from(&m);
+                m = d;
+            }
+            4 => m.reserve(nrng.usize(40)),
+            5 => m.shrink_to(nrng.usize(300)),
+            6 => {
+                for (_, v) in m.iter_mut() {
+                    *v ^= 0;
+                }
+            }
+            7 => {
+                // overwrite with the same value (carries if the key sits in the old table)
+                let keys: Vec<(u64, u64)> = m.iter().map(|(a, b)| (*a, *b)).take(3).collect();
+                for (k, v) in keys {
+                    m.insert(k, v);
+                }
+            }
+            _ => {
+                let c = m.clone();
+                m = c;
+            }
+        }
     }
     if r.reserve_split && !m.is_empty() {
         let mut extra = 0u64;
@@ -642,6 +698,7 @@ pub fn meta(a: &Args, rep: &mut Report) {
             noise: hr.usize(n + 1),
             force_split: hr.chance(1, 2),
             reserve_split: hr.chance(1, 4),
+            neutral: hr.usize(4),
         };
         let (r1, r2, r3) = (recipe(&mut hr), recipe(&mut hr), recipe(&mut hr));
         let tag = format!("meta-{}-s{}-i{}-h{}", flavour(), sh.seed, sh.index, h);
